@@ -6,4 +6,5 @@ export CARGO_NET_OFFLINE=true
 (cd harness && cargo build --release --offline 2>&1 | tail -3)
 (cd harness && cargo build --release --offline --features miniwasm --target-dir target-mw 2>&1 | tail -3)
 for f in spec/*.tla; do tla-sany "$f" >/dev/null 2>&1 || { echo "SANY failed: $f"; exit 1; }; done
+python3 tools/mwcheck.py --warm quick
 echo setup-ok
